@@ -1,5 +1,5 @@
 """C10 -- significant and bracketed durations locate threshold crossings exactly."""
-from pyvc.api import unit
+from pyvc.api import unit, Skip
 from pyvc import terms as T
 from pyvc import spec as S
 from pyvc.terms import Q
@@ -78,10 +78,14 @@ def _asig(V, a, dt):
 
 
 @unit('C10', 'calc_sig_dur', functions=['eqsig.im.calc_sig_dur', 'eqsig.im.calc_arias_intensity', 'eqsig.im._raw_calc_arias_intensity'],
-      cases=[dict(se=True, im='arias'), dict(se=False, im='arias'), dict(se=True, im='custom'), dict(se=False, im='custom')],
+      cases=[dict(se=s, im=i, pre=p) for p in ('fresh', 'after-a-call-with-another-measure') for i in ('arias', 'custom') for s in (True, False)],
       sizes=dict(n=[3, 4]))
-def sig_dur(V, se, im):
+def sig_dur(V, se, im, pre):
+    """pre='after-a-call-with-another-measure': the same AccSignal has already been asked for a significant duration with a
+    DIFFERENT cumulative measure and other fractions; the answer must still be the one for the measure requested now."""
     st = {}
+    if pre != 'fresh' and V.mode == 'bounded' and V.sizes.get('n', 0) > 3:
+        raise Skip()                        # two calls square the number of paths: the history is run unbounded and at n = 3
 
     def setup():
         n = V.size('n', 1)
@@ -100,11 +104,28 @@ def sig_dur(V, se, im):
         q = between(I, n, start, end)
         S.exists_index(V, q, n)
         st.update(q=q, n=n, dt=dt)
+        if pre != 'fresh':
+            h = V.array('H', n, origin='fresh')
+            other = None if im == 'custom' else V.opaque_callable('other_measure', lambda itp, sig: h)
+            s0, e0 = V.real('start0'), V.real('end0')
+            V.assume(0 < s0, s0 < e0, e0 < 1)
+            st.update(first=dict(start=s0, end=e0, im=other, se=False))
         return dict(asig=asig, start=start, end=end, im=imf, se=se)
-    for out in V.run('eqsig.im.calc_sig_dur', setup):
+
+    def two_calls(itp, asig, start, end, im, se):
+        f = itp.get_function('eqsig.im.calc_sig_dur')
+        try:
+            itp.call(f, [asig], st['first'])          # its own result (or IndexError when nothing lies between) is irrelevant here
+        except T.PyExc:
+            pass
+        return itp.call(f, [asig], dict(start=start, end=end, im=im, se=se))
+    for out in V.run('eqsig.im.calc_sig_dur' if pre == 'fresh' else two_calls, setup):
+        if pre != 'fresh':
+            out.replay_info = dict(module='durations', se=se, im=im, pre=pre)
         if not out.no_raise():
             continue
-        out.side_conditions()
+        if pre == 'fresh':
+            out.side_conditions()
         duration_clauses(V, out, out.result, se, st['dt'], st['n'], st['q'])
 
 
